@@ -108,8 +108,14 @@ func PropC03(c *vs.Case, f Factory, kind string) error {
 				m["finalizers"] = append(fs, "example.com/hold")
 			})
 			env.W.Sim.ExtDelete(scn.Cfg.ParentResource, scn.ParentNS(), scn.ParentName(), "")
-			env.W.SyncCache(scn.Cfg.ParentResource)
-			c.Class("parent-deleting")
+			if c.Bool() {
+				env.W.SyncCache(scn.Cfg.ParentResource)
+				c.Class("parent-deleting")
+			} else {
+				// the cache still shows the parent alive: adoptions are refused by the uncached re-read, and
+				// an orphan whose adoption was refused is nobody's child
+				c.Class("parent-deleting-cache-stale")
+			}
 		}
 		hiddenRes := ""
 		if s > 0 && c.Prob(1, 6) {
